@@ -81,10 +81,20 @@ def check_tables(fx, R):
     R.used(md['ctor'], md['init'])
     loc = fx.rel(md['ctor']['loc'])
     x, y, z = md['angles']
-    if len(md['fresh']) != 1:
-        R.undecided('G1', 'SmartRotation3D::init', 'init() forks into %d paths; derivative tables are compared on straight-line initialisation only' % len(md['fresh']))
+    # re-initialisation: a path of init() that leaves a derivative table (or a table it is derived from) as an earlier call wrote it
+    dtabs = ('dRxdAngleX_', 'dRydAngleY_', 'dRzdAngleZ_', 'dRdAngleX_', 'dRdAngleY_', 'dRdAngleZ_')
+    for st_ in md['again']:
+        stale = sorted({s_.name for n_ in dtabs for s_ in sp.Matrix(st_.fields[('this', n_)]).free_symbols if s_.name.startswith('old:')})
+        if stale:
+            desc = ' && '.join(('' if c[2] else '!') + '(' + c[0] + ')' for c in st_.cond)
+            R.violated('G1', 'SmartRotation3D::init:stale-derivative-tables', 'on the path [%s] init() leaves %s as an earlier init() wrote them: after re-initialising an object the reported derivative matrices are those '
+                       'of the PREVIOUS angles, not derivatives of the reported rotation' % (desc, stale[:4]), fx.rel(md['init']['loc']), 'E-STATE')
+            break
+    generic = [s_ for s_ in md['fresh'] if not any(c[2] and isinstance(c[1], (sp.Eq, sp.And)) for c in s_.cond)]
+    if len(md['fresh']) != 1 and len(generic) != 1:
+        R.undecided('G1', 'SmartRotation3D::init', 'init() forks into %d paths and no single generic one' % len(md['fresh']))
         return
-    st = md['fresh'][0]
+    st = generic[0] if len(md['fresh']) != 1 else md['fresh'][0]
     F = lambda n: sp.Matrix(st.fields[('this', n)])
     for (tab, dtab, ang, ax) in (('Rx_', 'dRxdAngleX_', x, 'X'), ('Ry_', 'dRydAngleY_', y, 'Y'), ('Rz_', 'dRzdAngleZ_', z, 'Z')):
         want = F(tab).diff(ang)
@@ -269,6 +279,16 @@ def check_pose(fx, R):
         R.undecided('G3', 'operator*:congruence', 'covariance not readable')
     else:
         want = sp.Matrix(Js) * sp.Matrix(C) * sp.Matrix(Js).T
+        llts = [x for x in walk(f['body']) if x.get('k') == 'MCall' and x.get('m') == 'llt' and 'covariance' in pp(x.get('obj'))]
+        if llts:
+            R.violated('G3', 'operator*:covariance:cholesky-of-psd', 'the covariance is propagated through `%s` (plain Cholesky, LLT): it exists only for positive DEFINITE matrices, Eigen stops at the first '
+                       'zero pivot and the code never looks at info(); the quantifier has every symmetric positive SEMI-definite covariance (planar estimates lifted to 3-D, exactly known coordinates), for '
+                       'which the factor - and J L L^T J^T - is not J C J^T' % pp(llts[0]), fx.rel(llts[0]['loc']), 'E-INT')
+        if any(x.atoms(sp.core.function.AppliedUndef) for x in cov):
+            if not llts:
+                R.undecided('G3', 'operator*:congruence', "covariance' contains a factorisation this rule does not interpret")
+            cov = None
+    if isinstance(cov, sp.MatrixBase):
         diff = sp.Matrix(cov) - want
         bad = [(i, j) for i in range(6) for j in range(6) if sp.expand(diff[i, j]) != 0]
         asym = [(i, j) for (i, j) in bad if sp.expand(cov[i, j] - cov[j, i]) != 0]
